@@ -23,8 +23,8 @@ schema universe (`harness/src/c04m.rs`): the harness makes the `Serialize` calls
 the real serializer and reads the text back with the universal seed. Model: the text `serCompact` / `serPretty "  "` of
 `SJ.Model.TypedSer.progOf schema tval` and `deTypedTop schema` of that text (both computed, nothing echoed except the
 wording of an error). Specification (independent of the models): both values read back are the value written. The driver
-also checks the generator against the well-formedness predicate of the theorem (`wfTV`; `f32` leaves are run although they
-are outside it).
+also checks the generator against the well-formedness predicate of the theorem (`wfTVx`: the whole universe, `f32` and `Value`
+members included).
 -/
 namespace SJ.Drv.C04
 open SJ SJ.Drv SJ.Drv.Mach SJ.Model.Ser SJ.Model.Machine
@@ -106,9 +106,10 @@ def rtm : Handler := fun args impl =>
   | [ct, _, se, te, fe] =>
     match Schema.decode se, TVal.decode te, decodeFloats fe with
     | some s, some v, some tb =>
-      if !(hasF32 v || Model.TypedSer.wfTV s v) then bad "generated typed value is outside the well-formedness predicate wfTV" else
       let cfg := cfgOfTag ct
       let ext := C03.extOf tb
+      if !Model.TypedSer.wfTVx (specCfgOf cfg) ext.ryu32 s v then
+        bad "generated typed value is outside the well-formedness predicate wfTVx" else
       let p := Model.TypedSer.progOf s v
       let fields := impl.splitOn "|"
       let one (pretty : Bool) (back : String) : String :=
